@@ -27,7 +27,7 @@ from vlib import storetrace, vtime
 
 PROPERTY = "C08"
 LEVEL = "fault_enumeration"
-TIMEOUT = {"quick": 900, "thorough": 5400}
+TIMEOUT = {"quick": 1500, "thorough": 7200}
 RULE = (
     "scenario = (n inputs, use_backups, batch_size, up to 3 special inputs each with an original outcome from {fast ok, "
     "fast error, early-straggle error, straggle ok, straggle error} and a backup outcome from {ok/error} x {soon, late, "
